@@ -33,9 +33,12 @@ REQUIRED_MONITORS = ['mutants:stdout', 'mutants:stderr', 'mutants:file', 'mutant
 REQUIRED_CLASSES = ['how=alter', 'how=add', 'how=remove', 'how=missing', 'how=change']
 
 
-def excluded_by_design(line, g):
+def excluded_by_design(line, g, date_like_exclusions=()):
     # (the home directory only earns a warning from gentest, not an exclusion, unless it is part of the cwd)
-    toks = [g.tokens['user'], g.tokens['host'], g.workdir] + GC.today_tokens()
+    # date_like_exclusions: date/time stamps gentest itself chose to ignore because they share a line with a
+    # plausible "now" - which stamps count as time-specific is gentest's heuristic, and a line carrying one of them
+    # is excluded by design wherever it occurs
+    toks = [g.tokens['user'], g.tokens['host'], g.workdir] + GC.today_tokens() + list(date_like_exclusions)
     if g.tokens.get('ip'):
         toks.append(g.tokens['ip'])
     return any(t and t in line for t in toks)
@@ -72,17 +75,23 @@ def run_case(ctx, case):
         if dates:
             rec.note('date-like substrings excluded by gentest: %d' % len(dates))
     # ---- mutations -------------------------------------------------------------------------
+    datesubs = []
+    if ex is not None:
+        datesubs = [s_ for s_ in ex['substrings'] if isinstance(s_, str) and re.match(r'^[\d/\-. :a-zA-Z,]+$', s_)
+                    and re.search(r'\d', s_) and len(s_) >= 6]
     for m in GC.mutations(spec):
         t = m['target']
         if t == 'stdout' and '--no-stdout' in flags or t == 'stderr' and '--no-stderr' in flags:
             continue
         if t == 'file' and case['refmode'] == 'none':
             continue
+        if t == 'file' and m['name'].startswith(GC.TMP_PREFIX) and case.get('wizard') and not case['wizard']['tmpdir_tracking']:
+            continue                      # the user declined the checking of files under $TMPDIR
         blind = False
-        if t in ('stdout', 'stderr') and m['how'] in ('alter', 'remove'):
-            blind = excluded_by_design(spec[t][m['line']], g)
-        if t == 'file' and m['how'] == 'alter' and spec['files'][m['file']]['kind'] == 'text':
-            blind = excluded_by_design(spec['files'][m['file']]['lines'][m['line']], g)
+        if t in ('stdout', 'stderr') and m['how'] in ('alter', 'remove', 'alter_token'):
+            blind = excluded_by_design(spec[t][m['line']], g, datesubs)
+        if t == 'file' and m['how'] in ('alter', 'alter_token') and spec['files'][m['file']]['kind'] == 'text':
+            blind = excluded_by_design(spec['files'][m['file']]['lines'][m['line']], g, datesubs)
         # history: a normal run of the command leaves its outputs behind, THEN the command changes
         try:
             G.bare_run(g.workdir, g.env, names=[f['name'] for f in spec['files']])
